@@ -35,11 +35,13 @@ def parse_off_data(data):
     # remove empty lines from data
     data = deque([x for x in data if x])
 
-    header = data.popleft()[0]
-    if (header != "OFF"): # file always starts with OFF
+    header = data.popleft()
+    if (header[0] != "OFF"): # file always starts with OFF
         raise Exception("Import OFF file : OFF header missing.")
 
-    nv,nf,ne = (int(u) for u in data.popleft())
+    # the three counts may follow the keyword on the same line
+    counts = header[1:] if len(header)>1 else data.popleft()
+    nv,nf,ne = (int(u) for u in counts)
 
     for _ in range(nv):
         vertex = [float(u) for u in data.popleft()]
